@@ -208,21 +208,48 @@ func runThoroughMutants(res *Result, prop, repo, verif string) {
 		runs = append(runs, &mutantRun{ID: fmt.Sprintf("edit/%s-%d", prop, i), Note: m.Note, Args: []string{"-edit-file", m.File, "-edit-old", m.Old, "-edit-new", m.New}})
 	}
 	// behaviour-preserving edits: the check must stay silent on every one of them
+	// (those that touch a package in which this property has obligations: an edit elsewhere is not seen by its rules)
+	pkgDirs := map[string]bool{}
+	for _, o := range res.Obls {
+		if i := strings.Index(o.Pos, ":"); i > 0 {
+			pkgDirs[filepath.Dir(o.Pos[:i])] = true
+		}
+	}
+	touches := func(patch string) bool {
+		b, err := os.ReadFile(patch)
+		if err != nil {
+			return true
+		}
+		for _, l := range strings.Split(string(b), "\n") {
+			if strings.HasPrefix(l, "+++ b/") || strings.HasPrefix(l, "--- a/") {
+				if pkgDirs[filepath.Dir(l[6:])] {
+					return true
+				}
+			}
+		}
+		return false
+	}
 	var benign []*mutantRun
-	for _, dir := range []string{"benign", "benign2", "benign3", "benign4", "benign5"} {
+	skippedElsewhere := 0
+	for _, dir := range []string{"benign", "benign2", "benign3", "benign4", "benign5", "benign6", "benign7"} {
 		files, _ := filepath.Glob(filepath.Join(verif, dir, "*", "*.diff"))
 		sort.Strings(files)
 		for _, f := range files {
+			if !touches(f) {
+				skippedElsewhere++
+				continue
+			}
 			rel, _ := filepath.Rel(verif, f)
 			benign = append(benign, &mutantRun{ID: rel, Args: []string{"-patch", f}})
 		}
 	}
+	res.Extra["benign_variants_in_other_packages"] = skippedElsewhere
 	runs = append(runs, benign...)
 	isBenign := map[*mutantRun]bool{}
 	for _, b := range benign {
 		isBenign[b] = true
 	}
-	sem := make(chan struct{}, 8)
+	sem := make(chan struct{}, 14)
 	var wg sync.WaitGroup
 	for _, mr := range runs {
 		wg.Add(1)
